@@ -2178,7 +2178,11 @@ class SQLCompiler(Compiled):
                     replacement_expressions[escaped_name] = (
                         self.render_literal_bindparam(
                             parameter,
-                            render_literal_value=parameters.pop(escaped_name),
+                            render_literal_value=(
+                                parameters.pop(name)
+                                if name in parameters
+                                else parameters.pop(escaped_name)
+                            ),
                         )
                     )
                 continue
